@@ -51,6 +51,12 @@ def scopes(chk):
               'CmdNames': [], 'EnvNames': ['e'], 'ListNames': [], 'MathKinds': [], 'MEnvNames': [], 'ComPool': ['c', '}', '\\end{e}', '\\'],
               'MaxSib': 3})
     sc.append(('parity', p))
+    # a comment directly after a sizing command (its delimiter stands on the next line)
+    p = dict(common)
+    p.update({'Budget': 4, 'TextPool': ['\n', '\n('], 'MathTextPool': ['\n( x', '\n', 'x'], 'CmdNames': ['left', 'big', 'Bigg', 'right'], 'EnvNames': [],
+              'ListNames': [], 'MathKinds': ['$', '\\['], 'MEnvNames': ['equation'], 'Labels': [''], 'MaxSib': 3, 'MaxArgs': 0,
+              'ComPool': ['}', '$', '\\end{equation}', '\\]', 'c', ')', '(', '.', '|', '\\}']})
+    sc.append(('sizing', p))
     return sc
 
 
